@@ -734,7 +734,12 @@ class DateTime(datetime.datetime, Date):
 
             return self.add(**signature)
 
-        return self.add(seconds=delta.total_seconds())
+        # Whole numbers: total_seconds() is a float and cannot carry the
+        # microseconds of a delta of a few hundred years
+        return self.add(
+            seconds=delta.days * SECONDS_PER_DAY + delta.seconds,
+            microseconds=delta.microseconds,
+        )
 
     def _subtract_timedelta(self, delta: datetime.timedelta) -> Self:
         """
@@ -754,7 +759,10 @@ class DateTime(datetime.datetime, Date):
                 microseconds=delta.microseconds,
             )
 
-        return self.subtract(seconds=delta.total_seconds())
+        return self.subtract(
+            seconds=delta.days * SECONDS_PER_DAY + delta.seconds,
+            microseconds=delta.microseconds,
+        )
 
     # DIFFERENCES
 
